@@ -223,59 +223,162 @@ def rule_arrow_block(check):
         check.expect("variant" in kinds and not bad, R, R + "/dispatch", hir.loc(n), "called for every Expr::Arrow", "arrow normalisation is gated: %s" % "; ".join(bad))
 
 
+PRED_GATES = {"method_allows_literal_callers", "is_call_or_apply", "member_prop_is_prototype"}
+REPLACE_FNS = {"replace_call_expr_if_csi_method", "replace_prototype_call_or_apply", "replace_call_expr_if_csi_method_with_member"}
+
+
+def _pat_accepts(p, variant):
+    """Does pattern p accept an Expr of the given variant?  (True / False)"""
+    k = p.get("k")
+    if k in ("Wild",):
+        return True
+    if k == "Binding":
+        return _pat_accepts(p["sub"], variant) if "sub" in p else True
+    if k in ("Box", "Deref", "Ref", "Guard"):
+        return _pat_accepts(p["inner"], variant)
+    if k == "Or":
+        return any(_pat_accepts(q, variant) for q in p["pats"])
+    if k in ("TupleStruct", "Struct", "Path"):
+        v = hir.pat_variant(p)
+        return isinstance(v, str) and v.split("::")[-1] == variant and "Expr" in v
+    return False
+
+
+def _gates_of(fn, e, val):
+    out = []
+    for c in hir.split_cond(e, val):
+        if c["t"] != "bool":
+            out.append(("?" + hir.cond_str(c), True))
+            continue
+        x = hir.peel(c["e"])
+        if hir.is_call(x) and (hir.callee_name(x) or x.get("method")) in PRED_GATES:
+            out.append((hir.callee_name(x) or x.get("method"), c["v"]))
+        else:
+            out.append(("?" + hir.describe(x), c["v"]))
+    return out
+
+
+def _is_receiver_scrut(fn, pv, e):
+    """(is the match about the receiver object?, index of the receiver in a tuple scrutinee or None)"""
+    x = hir.peel(e)
+    cands = [(None, x)]
+    if x.get("k") == "Tup":
+        cands = [(i, el) for i, el in enumerate(x["elems"])]
+    for i, el in cands:
+        os_ = pv.origins(fn, el)
+        if os_ and all(p and p[-1].split(".")[-1] == "obj" for r, p in os_) and "swc_ecma_ast::Expr" in (hir.peel(el).get("ty") or ""):
+            return True, i
+    return False, None
+
+
+def _outcomes(prog, fn, pv, n, variant, gates):
+    """set of (replace fn called | None, frozenset(gates)) reachable when the receiver has `variant`"""
+    n = hir.peel(n)
+    k = n.get("k")
+    if k == "BlockExpr":
+        b = n["block"]
+        res = set()
+        # statements may contain the interesting match in a `let x = match ..`
+        tails = []
+        for st in b["stmts"]:
+            e = st.get("init") if st["k"] == "Let" else st.get("e")
+            if e is not None:
+                tails.append(e)
+        if "tail" in b:
+            tails.append(b["tail"])
+        for e in tails:
+            res |= {o for o in _outcomes(prog, fn, pv, e, variant, gates) if o[0] is not None}
+        return res or {(None, frozenset(gates))}
+    if hir.is_call(n):
+        name = hir.callee_name(n) or n.get("method")
+        if name in REPLACE_FNS:
+            return {(name, frozenset(gates))}
+        res = set()
+        for a in hir.call_args(n):
+            res |= {o for o in _outcomes(prog, fn, pv, a, variant, gates) if o[0] is not None}
+        return res or {(None, frozenset(gates))}
+    if k == "If":
+        res = set()
+        res |= _outcomes(prog, fn, pv, n["then"], variant, gates + _gates_of(fn, n["cond"], True))
+        if "else" in n:
+            res |= _outcomes(prog, fn, pv, n["else"], variant, gates + _gates_of(fn, n["cond"], False))
+        else:
+            res.add((None, frozenset(gates + _gates_of(fn, n["cond"], False))))
+        return res
+    if k == "Match":
+        is_recv, idx = _is_receiver_scrut(fn, pv, n["scrut"])
+        res = set()
+        acc = list(gates)
+        for a in n["arms"]:
+            pat = a["pat"]
+            if is_recv:
+                rp = pat
+                if idx is not None:
+                    if pat.get("k") != "Tuple" or idx >= len(pat["pats"]):
+                        rp = None if pat.get("k") not in ("Wild", "Binding") else pat
+                    else:
+                        rp = pat["pats"][idx]
+                        # the other tuple elements must accept an identifier property
+                        others = [q for j, q in enumerate(pat["pats"]) if j != idx]
+                        if any(q.get("k") in ("TupleStruct", "Struct", "Path") and not str(hir.pat_variant(q)).endswith("MemberProp::Ident") for q in others):
+                            continue
+                if rp is None or not _pat_accepts(rp, variant):
+                    continue
+            g = list(acc)
+            if "guard" in a:
+                g_true = g + _gates_of(fn, a["guard"], True)
+                res |= _outcomes(prog, fn, pv, a["body"], variant, g_true)
+                acc = acc + _gates_of(fn, a["guard"], False)
+                continue
+            res |= _outcomes(prog, fn, pv, a["body"], variant, g)
+            if is_recv:
+                break  # an unguarded accepting arm ends the match for this variant
+        return res or {(None, frozenset(acc))}
+    if k == "Closure":
+        return _outcomes(prog, fn, pv, n["body"], variant, gates)
+    return {(None, frozenset(gates))}
+
+
 def rule_receiver_table(check):
     prog = check.prog
     R = "RECEIVER-TABLE"
-    check.rule(R, "the receiver kinds that lead to a hook are exactly {Lit (literal-caller methods only), Ident, Call, Paren, Array, Member (not .prototype unless .call/.apply)} and the literal-caller method set is {concat, replace, replaceAll, padStart, padEnd, repeat}")
+    check.rule(R, "evaluated symbolically per receiver kind over the match structure of to_dd_call_expr: Ident, Call, Paren and Array receivers always lead to a hook; Lit only for literal-caller methods; Member leads to the prototype path iff the property is call/apply, else to a plain hook unless the object is a `.prototype` member; no other receiver kind does; the literal-caller method set is {concat, replace, replaceAll, padStart, padEnd, repeat}")
+    from ..prov import Prov
+
     f = prog.fn("CallExprTransform::to_dd_call_expr")
-    replace_fns = {"replace_call_expr_if_csi_method", "replace_prototype_call_or_apply", "replace_call_expr_if_csi_method_with_member"}
-    got = {}
-    for m in hir.walk(f.body):
-        if m.get("k") != "Match":
-            continue
-        for a in m["arms"]:
-            p = a["pat"]
-            if p.get("k") != "Tuple" or len(p["pats"]) != 2:
-                continue
-            v = hir.pat_variant(p["pats"][0])
-            v2 = hir.pat_variant(p["pats"][1])
-            if not (isinstance(v, str) and "Expr::" in v):
-                continue
-            calls = [c for c in hir.walk(a["body"]) if hir.is_call(c) and hir.callee_name(c) in replace_fns]
-            if calls:
-                got.setdefault(v.split("::")[-1], []).append((a, calls, v2))
-    expected = {"Lit", "Ident", "Call", "Paren", "Array", "Member"}
-    for v in sorted(expected | set(got)):
-        key = "%s/receiver/%s" % (R, v)
-        if v in expected and v in got:
-            a, calls, v2 = got[v][0]
-            prop_ok = isinstance(v2, str) and v2.endswith("MemberProp::Ident")
-            check.expect(prop_ok, R, key, hir.loc(calls[0]), "receiver Expr::%s with an identifier property leads to a hook" % v, "receiver Expr::%s arm does not match MemberProp::Ident (%s)" % (v, v2))
-        elif v in expected:
-            check.bad(R, key, hir.loc(f.rec), "receiver kind Expr::%s no longer leads to a hook" % v)
+    pv = Prov(prog)
+    plain = "replace_call_expr_if_csi_method"
+    expected = {
+        "Lit": {(plain, frozenset({("method_allows_literal_callers", True)}))},
+        "Ident": {(plain, frozenset())},
+        "Call": {(plain, frozenset())},
+        "Paren": {(plain, frozenset())},
+        "Array": {(plain, frozenset())},
+        "Member": {("replace_prototype_call_or_apply", frozenset({("is_call_or_apply", True)})), (plain, frozenset({("is_call_or_apply", False), ("member_prop_is_prototype", False)}))},
+    }
+    others = [v["name"] for v in prog.adt("swc_ecma_ast::Expr")["variants"] if v["name"] not in expected and not v["name"].startswith(("Ts", "JSX"))]
+    n_hook = 0
+    for variant in list(expected) + others:
+        outs = {(c if c != "replace_call_expr_if_csi_method_with_member" else plain, g) for c, g in _outcomes(prog, f, pv, f.body, variant, []) if c is not None}
+        want = expected.get(variant, set())
+        key = "%s/receiver/%s" % (R, variant)
+        show = lambda s: sorted((c, sorted(g)) for c, g in s)
+        if outs:
+            n_hook += 1
+        if outs == want:
+            check.ok(R, key, hir.loc(f.rec), "Expr::%s -> %s" % (variant, show(outs) or "no hook"))
         else:
-            check.bad(R, key, hir.loc(got[v][0][1][0]), "undocumented receiver kind Expr::%s leads to a hook" % v)
-    # gates inside the Lit and Member arms
-    if "Lit" in got:
-        a, calls, _ = got["Lit"][0]
-        for c in calls:
-            conds = f.conds_at(c)
-            arm_conds = [x for x in conds if x["t"] == "bool"]
-            names = [(hir.cond_call(x) or [None])[0] for x in arm_conds]
-            vals = [(hir.cond_call(x) or [None, None, None, None])[3] for x in arm_conds]
-            ok = names == ["method_allows_literal_callers"] and vals == [True]
-            check.expect(ok, R, R + "/lit-gate", hir.loc(c), "literal receivers only for methods that allow literal callers", "literal receiver gate is %s" % [hir.cond_str(x) for x in arm_conds])
-    if "Member" in got:
-        a, calls, _ = got["Member"][0]
-        for c in calls:
-            nm = hir.callee_name(c)
-            arm_conds = [x for x in f.conds_at(c) if x["t"] == "bool"]
-            desc = sorted(("%s=%s" % ((hir.cond_call(x) or ["?"])[0], (hir.cond_call(x) or [0, 0, 0, "?"])[3])) for x in arm_conds)
-            if nm == "replace_prototype_call_or_apply":
-                ok = desc == ["is_call_or_apply=True"]
-            else:
-                ok = desc == ["is_call_or_apply=False", "member_prop_is_prototype=False"]
-            check.expect(ok, R, R + "/member-gate/" + nm, hir.loc(c), "member receiver gate {%s}" % ", ".join(desc), "member receiver gate is {%s}" % ", ".join(desc))
+            check.bad(R, key, hir.loc(f.rec), "receiver kind Expr::%s leads to %s, documented %s" % (variant, show(outs) or "no hook", show(want) or "no hook"))
+    check.floor(R, "receiver kinds leading to a hook", n_hook, 6)
+    # identifier property required
+    for c in [x for x in hir.walk(f.body) if hir.is_call(x) and hir.callee_name(x) in REPLACE_FNS]:
+        ok = False
+        for cd in f.conds_at(c):
+            if cd["t"] == "pat" and cd["v"]:
+                for q in hir.walk_pat(cd["pat"]):
+                    if str(hir.pat_variant(q)).endswith("MemberProp::Ident"):
+                        ok = True
+        check.expect(ok, R, R + "/ident-property/" + hir.callee_name(c), hir.loc(c), "only identifier (non-computed) properties", "a hook is built for a property that is not matched as MemberProp::Ident (computed names are a documented exclusion)")
     # bare calls
     bare = [c for c in hir.walk(f.body) if hir.is_call(c) and hir.callee_name(c) == "replace_call_expr_if_csi_method_without_callee"]
     check.floor(R, "bare-call dispatch", len(bare), 1)
@@ -297,7 +400,50 @@ def rule_receiver_table(check):
     check.expect(len(contains) == 1 and hir.peel(h.body) is contains[0], R, R + "/allows-literal", hir.loc(h.rec), "method_allows_literal_callers = membership in the set", "method_allows_literal_callers is not a plain membership test")
 
 
+def rule_optchain_shape(check):
+    R = "OPTCHAIN-SHAPE"
+    check.rule(R, "the optional-chain lowering starts for exactly `recv?.m(..)`: a non-optional call link whose callee is an optional member link with an identifier property naming a configured method - and under no further condition")
+    prog = check.prog
+    ov = [f for f in overrides_of(prog, "OptChainVisitor") if f.name == "visit_mut_expr"]
+    if len(ov) != 1:
+        raise AnchorMissing("OptChainVisitor::visit_mut_expr")
+    f = ov[0]
+    sets = [x for x in f.nodes() if x.get("k") == "Assign" and (hir.place(x["l"]) or "").endswith(".found") and hir.lit_value(x["r"]) is True]
+    check.floor(R, "lowering start sites", len(sets), 1)
+    for x in sets:
+        kinds = []
+        for c in f.conds_at(x):
+            t = c["t"]
+            if t == "pat" and c["v"]:
+                v = hir.pat_variant(c["pat"])
+                vn = v.split("::")[-1] if isinstance(v, str) else str(v)
+                par = v.split("::")[-2] if isinstance(v, str) and "::" in v else ""
+                kinds.append("matches %s::%s" % (par, vn))
+            elif t == "pat":
+                kinds.append("unknown:!matches %s" % (hir.pat_variant(c["pat"]),))
+            elif t == "bool":
+                e = hir.peel(c["e"])
+                p = hir.place(e)
+                if p and p.endswith(".found") and c["v"] is False:
+                    kinds.append("!found")
+                elif p and p.endswith(".optional") and c["v"] is False:
+                    kinds.append("!optional")
+                elif hir.is_call(e) and hir.callee_name(e) == "is_some" and c["v"]:
+                    inner = hir.peel(hir.call_args(e)[0])
+                    kinds.append("configured" if hir.is_call(inner) and hir.callee_name(inner) == "get" else "unknown:" + hir.describe(e))
+                else:
+                    kinds.append("unknown:" + hir.cond_str(c))
+            elif t in ("closure",):
+                continue
+            else:
+                kinds.append("unknown:" + t)
+        want = ["matches Expr::OptChain", "!found", "!optional", "matches OptChainBase::Call", "matches Expr::OptChain", "matches OptChainBase::Member", "matches MemberProp::Ident", "configured"]
+        extra = [k for k in kinds if k.startswith("unknown:")]
+        check.expect(sorted(kinds) == sorted(want) and not extra, R, R + "/start-conditions", hir.loc(x), "lowering starts under exactly {%s}" % ", ".join(want), "the optional-chain lowering starts under {%s}: `recv?.m(..)` calls of configured methods are skipped or other shapes are lowered" % ", ".join(kinds))
+
+
 def run(check):
+    check.guarded("OPTCHAIN-SHAPE", rule_optchain_shape)
     check.rule("TRAV-COVER", "on every structural path of every visit_mut_* override of the instrumenting visitors, every child that can contain an expression is visited (visit_mut_with / visit_mut_children_with), unless the path matches a documented exclusion of the property statement")
     check.rule("TRAV-ROOT", "x.visit_mut_children_with(v) on a sub-node x whose type has an override in v bypasses that override for the root of x")
 
